@@ -14,7 +14,7 @@
 
 /* per-case watchdog: a case that does not return within this many seconds kills the driver (reported as a crash
  * on that case; the pipeline restarts the driver on the next case) */
-#define CASE_SECONDS 5
+#define CASE_SECONDS 20
 
 static int parse_or_die(lp_value_t* v, const char* tok) {
   if (tok[0] == 'P' && tok[1] == ':') {
